@@ -462,6 +462,12 @@ def getattr_(I, obj, name, node=None):
             return tuple(obj.args) if isinstance(obj.args, (list, tuple)) else (obj.args,)
     if isinstance(obj, (int, Fraction)) and name == "real":
         return obj
+    if obj is None and not getattr(I, "in_spec", False):
+        # None has no attributes: AttributeError, as in Python - unless some mocked callee of this contract is modelled as
+        # "returns None" (then a None may be standing in for an object the model does not build: undecided, as before)
+        tr = getattr(getattr(I.ctx, "contract", None), "trace", None) or {}
+        if not any(v is None for v in tr.values()):
+            raise PyRaise("AttributeError", f"'NoneType' object has no attribute {name!r}")
     raise Unsupported(
         f"attribute {name!r} on {type(obj).__name__} at line {_ln(node)}"
     )
